@@ -56,6 +56,12 @@ def build_records(quick: bool, seed: int) -> list[dict[str, Any]]:
     for i1, i2 in itertools.product(INSTRS[1:], repeat=2):
         if quick and rnd.random() < 0.7: continue
         cases.append([dict(typ='mutating', outcome='ok', instr=i1), dict(typ='mutating', outcome=rnd.choice(OUTCOMES), instr=i2, fns=rnd.choice([[], ['addfin']]))])
+    # an earlier handler that is suspended before it acts, a later one that is not: the response is built in the order of the handlers
+    for i1, i2 in ((INSTRS[2], INSTRS[3]), (INSTRS[1], INSTRS[5]), (INSTRS[4], INSTRS[8]), (INSTRS[9], INSTRS[9]), (INSTRS[10], INSTRS[4])):
+        for y1, y2 in ((3, 0), (1, 0), (5, 2)):
+            for t1, t2 in (('mutating', 'mutating'), ('validating', 'mutating'), ('mutating', 'validating')):
+                cases.append([dict(typ=t1, outcome='ok', instr=i1 if t1 == 'mutating' else None, warn='w1', yields=y1),
+                              dict(typ=t2, outcome=rnd.choice(['ok', 'ok', 'perm']), instr=i2 if t2 == 'mutating' else None, warn='w2', yields=y2)])
     # selection: operations, subresources, webhook hints, mutation on DELETE
     sel_cases = []
     for ops, sub, typ in itertools.product([None, ['CREATE'], ['UPDATE', 'CREATE'], ['DELETE']], [None, 'status', '*'], ['validating', 'mutating']):
@@ -75,6 +81,8 @@ def build_records(quick: bool, seed: int) -> list[dict[str, Any]]:
 
             def mk(spec=spec, h=h):
                 async def fn(patch, warnings, **_):
+                    for _y in range(h.get('yields', 0)):        # the handler is suspended a few times before it acts: the handlers of one
+                        await asyncio.sleep(0)                  # review run one after the other all the same
                     ran.append(spec['id'])
                     if spec['warn']:
                         warnings.append(spec['warn'])
